@@ -15,6 +15,7 @@ DOC_IGNORED_PATTERN = r"`{name}`:\s*Ignored"
 # (jax primitive variable or "*", parameter) -> reason why a lowering need not read it
 INERT_PRIM_PARAMS = {
     ("*", "sharding"): "sharding annotation; no meaning in a single-device ONNX model",
+    ("rng_bit_generator_p", "algorithm"): "the lowering replaces JAX's counter-based generator by ONNX RandomUniform altogether: the bits are not reproduced for ANY algorithm (plugin docstring; its testcases skip numeric validation), so the choice of algorithm has no ONNX counterpart",
     ("*", "out_sharding"): "sharding annotation (AGENTS.md documents that it is ignored)",
     ("*", "precision"): "XLA matmul precision hint; ONNX has no counterpart, results stay within float tolerance",
     ("*", "accuracy"): "XLA transcendental accuracy hint",
